@@ -187,6 +187,9 @@ package engine
 // clearTransport runs inside OnClose, which is reached from listeners and callbacks that run inside a hand-off: if it
 // waited for the hand-off lock, the close would never emit its event and the registry's close hook would never run
 //@   ensures [C04.clearnolock,C03.clearnolock,C18.clearnolock] calls((*sync.Mutex).Lock) == 0
+// the transport that is let go keeps its other listeners: the server's "headers" hook still fires for the responses the
+// transport has yet to write (the close packet of a buffered close, the noop that releases a pending poll)
+//@   ensures [C17.clearkeepslisteners,C03.clearkeepslisteners,C08.clearkeepslisteners] calls(types.EventEmitter.Clear) == 0 && calls(types.EventEmitter.RemoveAllListeners) == 0
 //@ func (*socket).setTransport(transport)
 // the session's transport is stored by setTransport only; the upgrade flags are set by MaybeUpgrade and its listeners only
 //@   census [C08.transport.census,C01.transport.census] (*socket).transport written only by (*socket).setTransport, (*socket).Transport
@@ -240,7 +243,7 @@ package engine
 //@   props C07, C03
 //@   requires sockLive(s)
 //@   modifies *
-//@   ensures [C07.timeoutcloses,C03.pingtimeout] old(s.ReadyState()) != "closed" ==> calls((*socket).OnClose) == 1 && arg((*socket).OnClose, 1, reason) == "ping timeout"
+//@   ensures [C07.timeoutcloses,C03.pingtimeout,C12.closingdeadline] old(s.ReadyState()) != "closed" ==> calls((*socket).OnClose) == 1 && arg((*socket).OnClose, 1, reason) == "ping timeout"
 //@   ensures [C07.timeoutidle] old(s.ReadyState()) == "closed" ==> nevents() == 0
 //@ func (*socket).schedulePing()
 //@   props C07
@@ -321,6 +324,9 @@ package engine
 //@   ensures [C03.closing,C12.closing] !now && rs == "open" ==> calls((*socket).SetReadyState) == 1 && arg((*socket).SetReadyState, 1, state) == "closing"
 //@   ensures [C12.bufferedfirst] !now && rs == "open" && buffered ==> calls((*socket).closeTransport) == 0 && ncalls(types.EventEmitter.Once, evt == "drain") == 1
 //@   ensures [C12.emptynow]  !now && rs == "open" && !buffered ==> calls((*socket).closeTransport) == 1 && !arg((*socket).closeTransport, 1, discard)
+// Close may be called from flush and drain listeners and from send callbacks, all of which run inside a hand-off: it does
+// not wait for the hand-off lock
+//@   ensures [C18.closecallnolock,C12.closecallnolock] calls((*sync.Mutex).Lock) == 0
 
 //@ func (*socket).Close$1()
 //@   props C12
@@ -734,7 +740,7 @@ package engine
 //@   modifies *
 //@   let sid = old(bagPeek(ctx.query, "sid"))
 //@   ensures [C05.req.reject]    codeMessage != nil ==> calls((*server).emitAbortRequest) == 1 && calls(BaseServer.Handshake) == 0 && calls(transports.Transport.OnRequest) == 0 && nevents() == 1
-//@   ensures [C05.req.session]   codeMessage == nil && sid != "" && ret((*types.Map).Load, 1, 1) ==> calls(transports.Transport.OnRequest) == 1 && calls(BaseServer.Handshake) == 0 && calls(abortRequest) == 0
+//@   ensures [C05.req.session,C12.req.closing]   codeMessage == nil && sid != "" && ret((*types.Map).Load, 1, 1) ==> calls(transports.Transport.OnRequest) == 1 && calls(BaseServer.Handshake) == 0 && calls(abortRequest) == 0
 //@   ensures [C04.req.unknown]   codeMessage == nil && sid != "" && !ret((*types.Map).Load, 1, 1) ==> calls(abortRequest) == 1 && arg(abortRequest, 1, codeMessage) == UNKNOWN_SID && calls(transports.Transport.OnRequest) == 0 && calls(BaseServer.Handshake) == 0
 //@   ensures [C05.req.handshake] codeMessage == nil && sid == "" ==> calls(BaseServer.Handshake) == 1 && calls(transports.Transport.OnRequest) == 0
 //@   ensures [C05.req.hsreject]  codeMessage == nil && sid == "" && ret(BaseServer.Handshake, 1, 1) == nil ==> calls(abortRequest) == 1 && arg(abortRequest, 1, codeMessage) == ret(BaseServer.Handshake, 1, 0) && calls((*server).emitAbortRequest) == 0
